@@ -194,6 +194,10 @@ def emit_enum_decl(d, name="E"):
         else:
             lit = hex(x) if (x > 9 and (x + i) % 2) else str(x)
             vs.append(f"{pre}V{i} = {lit}")
+    if mal == 'cfgattr_dead':
+        # a variant compiled out through cfg_attr: still a cfg-gated variant
+        free = next(x for x in itertools.count() if x not in ds)
+        vs.insert(len(vs) // 2, f"#[cfg_attr(all(), cfg(any()))] XA = {free}")
     if mal == 'deaddup_front':
         vs.insert(0, f"#[cfg(any())] X0 = {ds[-1]}")
     if mal == 'deaddup_back':
@@ -252,6 +256,10 @@ def c10_declarations(tier):
             out.append((f"u{n}", (1, 0, 1), exh, sep, None, None))
             for mal in ('missing', 'nonlit', 'neg', 'constref'):
                 out.append((f"u{n}", (0, 1), exh, sep, None, mal))
+            if exh != 'conditional':
+                # (under `conditional` the outcome for cfg_attr-gated variants is not determined by the property)
+                for ds in [(0,), (1, 0), tuple(range((1 << n) - 1)), tuple(range(1, 1 << n))]:
+                    out.append((f"u{n}", ds, exh, sep, None, 'cfgattr_dead'))
             for mal in ('deaddup_front', 'deaddup_back'):
                 for ds in [(0,), (1, 0), tuple(range(1 << n)), tuple(reversed(range(1 << n))), ((1 << n) - 1,), ((1 << n),)]:
                     out.append((f"u{n}", ds, exh, sep, None, mal))
